@@ -1286,7 +1286,11 @@ pub fn process_complete_version<T: Deref<Target = rusqlite::Connection> + Commit
 
     let mut impactful_changeset = vec![];
 
-    let mut last_rows_impacted = 0;
+    // crsql_rows_impacted() counts over the whole transaction, which may already
+    // have applied other changesets of the same batch
+    let mut last_rows_impacted: i64 = sp
+        .prepare_cached("SELECT crsql_rows_impacted()")?
+        .query_row((), |row| row.get(0))?;
 
     let mut changes_per_table = BTreeMap::new();
 
